@@ -348,6 +348,20 @@ class Prop(PropBase):
             is_phase(Phase(a0 * u.cycle, b1 * u.cycle), F(a0) + F(b1), "Phase(Quantity, Quantity)")
             is_phase(Phase((a0 * 360.0) * u.deg), F(a0), "Phase(degrees)", F(1, 2**40))
             is_phase(Phase(pa), A, "Phase(Phase)", F(0))
+            # complex numbers with one part zero are real resp. imaginary numbers
+            is_phase(Phase(complex(a0, 0.0)), F(a0), "Phase(complex(x, 0))")
+            is_phase(Phase(np.array([complex(a0, 0.0), complex(b0, 0.0)]))[1], F(b0), "Phase(array of complex(x, 0))[1]")
+            pi_ = Phase(complex(0.0, b0), complex(0.0, b1))
+            if not pi_.imaginary or abs(val(pi_) - B) > F(1, 2**50) * max(1, abs(B)):
+                bad.append("Phase(complex(0, x), complex(0, y)) is not the imaginary phase x + y")
+            # elements of an imaginary phase array stay imaginary, with their own values
+            arr_i = Phase(1j * np.array([a0, b0]), 1j * np.array([a1, b1]))
+            e1 = arr_i[1]
+            if not e1.imaginary or type(e1) is not Phase or abs(val(e1) - B) > F(1, 2**50) * max(1, abs(B)):
+                bad.append("element of an imaginary Phase array lost its value or its imaginary kind")
+            arr_r = Phase(np.array([a0, b0]), np.array([a1, b1]))
+            is_phase(arr_r[1], B, "phase_array[1]", F(0))
+            is_phase(list(arr_r)[0], A, "next(iter(phase_array))", F(0))
             raises(lambda: Phase(a0, 1j * b1), "Phase(real, imaginary)")
             raises(lambda: Phase(1j * a0, b1), "Phase(imaginary, real)")
             raises(lambda: Phase(b0 + 1j * b0), "Phase(mixed complex)")
